@@ -791,6 +791,8 @@ def tree_hash(repo):
 
 
 HOOKS_EXTRA = {("Logger", "log")}
+MODEL_IFACES = [("MeasurementModel", "measurement_model_state"), ("LikelihoodModel", "likelihood_model_state"),
+                ("ParticleSetInitialization", "initialization_state")]
 ESC_RET = re.compile(r"(&|\*|\bEigen::(Ref|Map|Block)\s*<[^()]*>)\s*(const\s*)?$")
 
 
@@ -1005,21 +1007,35 @@ def merge(res):
     # site, with the locks in scope there: a hook invoked from a controller command then conflicts with the
     # filtering thread's own invocations like any other unsynchronised member.
     hooks = {k for k, m in methods.items() if (m["cls"] == "FilteringAlgorithm" and m["pure"]) or (k[0], k[1]) in HOOKS_EXTRA}
-    hooks |= {k for k in methods if any((h[1], h[2]) == (k[1], k[2]) and k[0] in desc.get(h[0], []) for h in list(hooks))}
-    hook_sites = [sp for sp in site_pos if sp[1] in hooks and sp[2] in ("direct", "virtual")]
-    if hook_sites:
-        classes.setdefault("user", {"bases": [], "fields": [("hook_state", "plain", "state of the user's filter touched by its hooks", 0)],
-                                    "methods": {}, "file": "", "line": 0})
+    # model interfaces implemented by user code and called by the filtering thread in every step: the pure virtual
+    # functions of MeasurementModel (freeze, measure, predictedMeasure, innovation), LikelihoodModel::likelihood and
+    # ParticleSetInitialization::initialize.  Each call is a write to the pseudo-member `user::<interface>_state`
+    # at the call site, so that a controller command that reaches such a call (e.g. skip() freezing the measurement
+    # model) conflicts with the filtering thread's own calls whatever the user's model looks like.
+    hook_groups = [("hook_state", "state of the user's filter touched by its hooks", hooks)]
+    for cls_name, fld in MODEL_IFACES:
+        hs = {k for k, m in methods.items() if m["cls"] == cls_name and m["pure"]}
+        hook_groups.append((fld, "state of the user's %s touched by its pure virtual functions" % cls_name, hs))
+    lockmap = None
+    for fld, descr, hs in hook_groups:
+        hs = set(hs)
+        hs |= {k for k in methods if any((h[1], h[2]) == (k[1], k[2]) and k[0] in desc.get(h[0], []) for h in list(hs))}
+        hook_sites = [sp for sp in site_pos if sp[1] in hs and sp[2] in ("direct", "virtual")]
+        if not hook_sites:
+            continue
+        classes.setdefault("user", {"bases": [], "fields": [], "methods": {}, "file": "", "line": 0})
+        classes["user"]["fields"].append((fld, "plain", descr, 0))
         anc.setdefault("user", [])
-        fields.append({"cls": "user", "name": "hook_state", "kind": "plain", "type": "(pseudo-member)", "file": "", "line": 0})
-        fid[("user", "hook_state")] = len(fields) - 1
-        lockmap = {}
-        for (a, b, kd, th, lk) in sites:
-            lockmap.setdefault((a, b, kd, th), set()).update(lk)
+        fields.append({"cls": "user", "name": fld, "kind": "plain", "type": "(pseudo-member)", "file": "", "line": 0})
+        fid[("user", fld)] = len(fields) - 1
+        if lockmap is None:
+            lockmap = {}
+            for (a, b, kd, th, lk) in sites:
+                lockmap.setdefault((a, b, kd, th), set()).update(lk)
         for (k, t, kd, th, file, line, col) in hook_sites:
             if k not in bodies:
                 continue
-            nr = {"cls": "user", "field": "hook_state", "acc": "w", "self": bool(th), "kindhint": "plain",
+            nr = {"cls": "user", "field": fld, "acc": "w", "self": bool(th), "kindhint": "plain",
                   "locks": sorted(lockmap.get((k, t, kd, th), ())) if th else [], "file": file or bodies[k]["file"], "line": line, "col": 0}
             if nr not in bodies[k]["rows"]:
                 bodies[k]["rows"].append(nr)
